@@ -15,7 +15,7 @@ import (
 func init() {
 	register(&Rule{ID: "C03.W", Min: 130, Doc: "every scalar field of the workflow AST is written by the parser, and every key case of a section parser keeps or acts on the value of its key", Run: runC03W})
 	register(&Rule{ID: "C03.W2", Min: 15, Doc: "no two key cases of one section parser store into the same AST field (copy-paste detector)", Run: runC03W2})
-	register(&Rule{ID: "C03.R", Min: 60, Doc: "every scalar field of the workflow AST is handed to the expression scanner by RuleExpression", Run: runC03R})
+	register(&Rule{ID: "C03.R", Min: 150, Doc: "every scalar field of the workflow AST, at every place of the AST where its node type occurs, is handed to the expression scanner by RuleExpression", Run: runC03R})
 }
 
 type astField struct {
@@ -553,6 +553,7 @@ func runC03R(c *Ctx) {
 		}
 		c.bad(construct, f.v.Pos(), "no function reachable from RuleExpression's visitor methods hands this field to the expression scanner: a ${{ }} placeholder at this key is silently skipped")
 	}
+	c03RPaths(c)
 	for f := range c03Excluded {
 		if !used[f] {
 			if _, ok := covered[f]; ok {
@@ -566,6 +567,63 @@ func runC03R(c *Ctx) {
 			}
 			if !found {
 				c.undecided("excluded field "+f, 0, "the exclusion table names a field that no longer exists")
+			}
+		}
+	}
+}
+
+// c03RPaths: a node type that occurs at several places of the AST (Env under the workflow, a job, a step and a container;
+// Container under a job and under each service; ...) has its fields read by one helper, and the field-level obligations
+// above are discharged by any one call of that helper. Here every chain of fields from Workflow, Job and Step (the nodes
+// the visitor hands to RuleExpression) down to a scalar is an obligation of its own: the visitor methods for that node must
+// hand exactly that chain - followed through helpers, closures, range loops, type switches and returned values - to the
+// source parameter of NewExprLexer.
+func c03RPaths(c *Ctx) {
+	p := c.P
+	eng := p.newAPEngine()
+	found := eng.handedToScanner()
+	stop := map[string]bool{"Workflow": true, "Job": true, "Step": true}
+	for _, nt := range []struct {
+		typ     string
+		methods []string
+	}{
+		{"Workflow", []string{"VisitWorkflowPre", "VisitWorkflowPost"}},
+		{"Job", []string{"VisitJobPre", "VisitJobPost"}},
+		{"Step", []string{"VisitStep"}},
+	} {
+		root := p.Named(nt.typ)
+		if root == nil {
+			c.anchorMissing("type " + nt.typ)
+			continue
+		}
+		have := map[string]token.Pos{}
+		for _, m := range nt.methods {
+			f := p.Method("RuleExpression", m)
+			if f == nil || len(f.Params) < 2 {
+				continue
+			}
+			for ap := range found[f] {
+				if ap.root == f.Params[1] {
+					have[ap.chain] = f.Pos()
+				}
+			}
+		}
+		for _, path := range eng.requiredScalarPaths(root, stop) {
+			leaf := path
+			if i := strings.LastIndex(path, "/"); i >= 0 {
+				leaf = path[i+1:]
+			}
+			if _, ok := c03Excluded[leaf]; ok {
+				continue
+			}
+			if !strings.Contains(path, "/") {
+				continue // a field of the node itself: the field-level obligation is the same statement
+			}
+			construct := "path " + path
+			if pos, ok := have[path]; ok {
+				c.ok(construct, pos, "the visitor methods of "+nt.typ+" hand this chain of fields to the expression scanner")
+			} else {
+				c.bad(construct, root.Obj().Pos(), "the visitor methods of "+nt.typ+" never hand this chain of fields to the expression scanner (the last field is scanned at another place of the AST only): a ${{ }} placeholder at this position is silently skipped")
 			}
 		}
 	}
